@@ -167,7 +167,15 @@ def run(ctx, config):
             elif un and not is_helper:
                 r1.bad("K5:%s:%s:unaccounted-local-%s" % (fn.name, kind.replace(" ", "-"), "growth" if d == "+" else "shrink"), el.where(), fn.name,
                        "total_len of local buffer %s changes without accounting" % X)
-            # same amount when simple
+            # every direct change in a non-helper function is paired with a counter update of the SAME amount, in the same
+            # block or in a block that post-dominates it (so that one cannot happen without the other)
+            if kind == "store" and amount is not None and not is_helper:
+                paired = [x for x in fn.elems() if A.is_acct(x, X, d) and eq(strip(x.e[3]), amount) and
+                          (x.bid == el.bid or fn.postdominates(x.bid, el.bid) or fn.dominates(x.bid, el.bid))]
+                if not paired:
+                    r1.bad("K8:%s:amount-unpaired:%s" % (fn.name, show(amount)), el.where(), fn.name,
+                           "total_len of %s changes by %s but no update of %s by that same amount is tied to it" %
+                           (X, show(amount), "n_add_for_cb" if d == "+" else "n_del_for_cb"))
             if kind == "store" and amount is not None:
                 blk = fn.blocks[el.bid]
                 accts = [x for x in blk.elems if A.is_acct(x, X, d)]
